@@ -310,7 +310,8 @@ def plan_stage(ctx):
     ctx.count("plan_pairs_hypothesis_holds", good)
     ctx.count("plan_pairs_hypothesis_fails", len(bad))
     # where the hypothesis fails: does the real planner still reach the count in a full feasible year?
-    todo = bad if not ctx.quick else bad[: 250]
+    ctx.rng.shuffle(bad)
+    todo = bad[: ctx.pick(250, 4000)]
     if ctx.quick and not any(m == [2, 5, 10] and f == 4 for m, f, _ in todo):
         todo += [(m, f, p) for m, f, p in bad if m == [2, 5, 10] and f == 4]
     reached = short = 0
